@@ -275,6 +275,14 @@ fn decode_domains(t: &mut Tape) -> OptCase {
         domains.push((t.choose(DOMS).to_string(), t.chance(1, 3)));
     }
     if t.chance(1, 6) {
+        // long lists (sorted-hash binary search, union pre-filter, thresholds such as 16 entries)
+        let m = [15usize, 16, 17, 31, 32, 33, 64, 100][t.pick(8)];
+        let neg_all = t.chance(1, 4);
+        for i in 0..m {
+            domains.push((format!("d{}.example", i), neg_all || t.chance(1, 10)));
+        }
+    }
+    if t.chance(1, 6) {
         let d = domains[0].clone();
         domains.push(d); // duplicate
     }
@@ -305,7 +313,7 @@ fn decode_domains(t: &mut Tape) -> OptCase {
                 Some(d.split_once('.').map(|x| x.1.to_string()).unwrap_or(d.to_string()))
             }
             5 => Some(format!("x{}", t.choose(DOMS))),
-            6 => Some("unrelated.io".to_string()),
+            6 => Some(if t.chance(1, 2) { "unrelated.io".to_string() } else { format!("{}d{}.example", t.choose(&["", "sub.", "x"]), t.choose(&[0usize, 1, 14, 15, 16, 17, 31, 32, 63, 99, 100])) }),
             _ => Some(format!("{}.evil.io", t.choose(DOMS))),
         };
         // party is computed from registrable domains: the target is sub.target-site.com, so every
